@@ -6,6 +6,7 @@
   everywhere except that point, and the counterexample is proved too.
 -/
 import IppModel.Spec.Transport
+import IppModel.Lemmas.Uri
 namespace Ipp.Props.C14
 open Ipp Ipp.Gen Ipp.Spec
 
@@ -19,23 +20,23 @@ theorem dec_631 : natToDec 631 = port631 := by decide
 theorem transport_partial (u : Uri)
     (h : ¬ (u.scheme = some N.ipps ∧ ∃ raw, u.authority = some raw ∧ portOf raw = none)) :
     transportUrl u = transportUrlSpec u := by
-  sorry
+  exact UriL.transportUrl_eq_spec u h
 
 /-- scheme ipp: http, explicit port kept, 631 otherwise; user-info, host, path and query unchanged -/
 theorem ipp_maps_to_http (raw : Bytes) (path : Bytes) (q pq : Option Bytes) :
     transportUrl ⟨some N.ipp, some raw, path, q, pq⟩ =
       N.http ++ ([cColon, cSlash, cSlash] ++ ((if (portOf raw).isSome then raw else raw ++ (cColon :: port631)) ++ pq.getD [])) := by
-  sorry
+  exact UriL.transportUrl_ipp raw path q pq
 
 /-- scheme ipps with an explicit port: https, port kept -/
 theorem ipps_with_port (raw : Bytes) (path : Bytes) (q pq : Option Bytes) (hp : (portOf raw).isSome) :
     transportUrl ⟨some N.ipps, some raw, path, q, pq⟩ = N.https ++ ([cColon, cSlash, cSlash] ++ (raw ++ pq.getD [])) := by
-  sorry
+  rw [UriL.transportUrl_ipps, if_pos hp]
 
 /-- targets that already use http or https (or anything else) are used as they are -/
 theorem other_schemes_unchanged (u : Uri) (h1 : u.scheme ≠ some N.ipp) (h2 : u.scheme ≠ some N.ipps) :
     transportUrl u = renderUri u := by
-  sorry
+  exact UriL.transportUrl_other u h1 h2
 
 /-- K1: the property is false of the model (and of the code) for a port-less ipps target. -/
 theorem portless_ipps_counterexample :
@@ -46,7 +47,7 @@ theorem portless_ipps_counterexample :
 theorem portless_ipps_gets_443 (raw : Bytes) (path : Bytes) (q pq : Option Bytes) (hp : portOf raw = none) :
     transportUrl ⟨some N.ipps, some raw, path, q, pq⟩ =
       N.https ++ ([cColon, cSlash, cSlash] ++ ((raw ++ (cColon :: [0x34, 0x34, 0x33])) ++ pq.getD [])) := by
-  sorry
+  rw [UriL.transportUrl_ipps, hp]; rfl
 
 /-- a bracketed IPv6 literal without port gets the default port outside the brackets; user-info is not mistaken for a port -/
 example : transportUrl ⟨some N.ipp, some [0x5b, 0x3a, 0x3a, 0x31, 0x5d], [0x2f], none, some [0x2f]⟩ =
